@@ -27,6 +27,8 @@ returns True when called with the node [edge] as an argument are yielded"; None 
     postorder_internal_edge_iter(f, exclude_seed_edge), internal_edges(exclude_seed_edge), len(tree), apply(...)
 
 Oracle: recursive reference traversals on the RefTree snapshot (raw links only); see check_tree()."""
+import contextlib
+import sys
 import warnings
 
 from hypothesis import strategies as st
@@ -340,6 +342,34 @@ def brief(got, want):
 # the check for one tree
 # ---------------------------------------------------------------------------
 
+USER_RECURSION_LIMIT = 1000   # CPython's default; /verif/vp_check.py raises the limit for the harness's own sake
+DEEP = 900                    # subtree height from which a one-frame-per-level recursion must hit that limit
+
+
+@contextlib.contextmanager
+def user_recursion_limit(enabled=True):
+    """Library code called inside this block gets the frames a user's interpreter would give it (1000 counted from
+    here), whatever limit the harness runs with; restored afterwards.  Harness code (model building, snapshot,
+    reference traversals) stays outside."""
+    if not enabled:
+        yield
+        return
+    old = sys.getrecursionlimit()
+    depth = 0
+    f = sys._getframe()
+    while f is not None:
+        depth += 1
+        f = f.f_back
+    lowered = depth + USER_RECURSION_LIMIT < old
+    if lowered:
+        sys.setrecursionlimit(depth + USER_RECURSION_LIMIT)
+    try:
+        yield
+    finally:
+        if lowered:
+            sys.setrecursionlimit(old)
+
+
 class Probe(object):
     """Everything needed to run iterators of one tree and compare them with index sequences."""
 
@@ -360,6 +390,19 @@ class Probe(object):
                 self.depth[c] = self.depth[i] + 1
         self.where = ""
         self.runs = {"partial": 0, "total": 0, "stateful": 0}
+        self.user_limit = False   # True: library calls run under the default recursion limit (large trees)
+        self._height = {}
+
+    def height_below(self, s):
+        """Number of edges from s down to its deepest descendant."""
+        if s not in self._height:
+            self._height[s] = max(self.depth[i] for i in self.rt.preorder(s)) - self.depth[s]
+        return self._height[s]
+
+    def lib(self, clause, fn, *args, **kwargs):
+        """ctx.call under the user's recursion limit (a RecursionError inside the library becomes a violation there)."""
+        with user_recursion_limit(self.user_limit):
+            return self.ctx.call(clause, fn, *args, **kwargs)
 
     def detail(self, what, got, want):
         return "%s on %s [%s]: %s" % (what, self.newick, self.where, brief(got, want))
@@ -408,7 +451,7 @@ class Probe(object):
                     break
             return out
         try:
-            items = ctx.call("C15.exception:" + name, consume, _allowed=allowed)
+            items = self.lib("C15.exception:" + name, consume, _allowed=allowed)
         except OutsideClass as e:
             ctx.fail("filter_applied_only_to_members_of_the_iterators_class", "C15.filter_domain:" + name,
                      self.detail(name + " applied filter_fn to %s, not a member of the class it iterates over" % e,
@@ -448,12 +491,14 @@ def check_tree(ctx, spec, starts, filters, precalc=False, all_apply=True):
     return check_built(ctx, tree, rt, starts, filters, precalc=precalc, all_apply=all_apply)
 
 
-def check_built(ctx, tree, rt, starts, filters, precalc=False, all_apply=True, ages=True, inorder=True, label=None):
+def check_built(ctx, tree, rt, starts, filters, precalc=False, all_apply=True, ages=True, inorder=True, label=None,
+                user_limit=False):
     """Every iterator / collection method of `tree` against the reference traversals of its snapshot `rt`.
 
     ages=False: age-order is skipped (lengths not ultrametric, or cached ages stale and nothing documented recomputes
     them).  inorder=False: in-order is skipped (the library's in-order is recursive; very deep trees)."""
     pr = Probe(ctx, tree, rt, label)
+    pr.user_limit = user_limit
     n = pr.n
     obj = rt.obj
     root = rt.root
@@ -514,7 +559,19 @@ def check_built(ctx, tree, rt, starts, filters, precalc=False, all_apply=True, a
             return
         want = ref_inorder(rt, s)
         if want is not None:
-            got = pr.run(name, thunk, edges=edges)
+            try:
+                got = pr.run(name, thunk, edges=edges, allowed=(RecursionError,))
+            except RecursionError:
+                # in-order is implemented as one nested generator per tree level: a strictly bifurcating (sub)tree
+                # deeper than the interpreter's recursion limit cannot be traversed.  Narrow key for exactly that.
+                h = pr.height_below(s)
+                ctx.fail(name + "_visits_every_node_of_a_deep_bifurcating_tree",
+                         "C15.inorder:RecursionError:subtree_height>=%d" % DEEP if h >= DEEP
+                         else "C15.exception:%s:RecursionError" % name,
+                         pr.detail(name + ": RecursionError under the default recursion limit, subtree height %d" % h,
+                                   None, None))
+                ctx.cls("inorder:RecursionError_on_deep_bifurcating_subtree")
+                return
             pr.expect(name, got, filt(want, P), bad=bad)
             ctx.cls("inorder:strictly_bifurcating" + (":1node" if len(want) == 1 else ""))
         else:
@@ -533,7 +590,7 @@ def check_built(ctx, tree, rt, starts, filters, precalc=False, all_apply=True, a
     ints_post = [i for i in post_all if not isleaf[i]]
 
     if precalc and ages:
-        ctx.call("C15.exception:calc_node_ages", tree.calc_node_ages)
+        pr.lib("C15.exception:calc_node_ages", tree.calc_node_ages)
 
     # age-order first (the unfiltered call on a fresh tree computes the ages itself when precalc is False)
     age_unf = {}
@@ -555,7 +612,7 @@ def check_built(ctx, tree, rt, starts, filters, precalc=False, all_apply=True, a
             raise runner.KnownSkip()
 
     pr.where = "Tree, no filter"
-    got_len = ctx.call("C15.exception:len", len, tree)
+    got_len = pr.lib("C15.exception:len", len, tree)
     ctx.check(got_len == nleaves, "len_tree_is_number_of_leaves", "C15.len", lambda: pr.detail("len(tree)", got_len, nleaves))
     pr.expect("tree_iter", pr.run("tree_iter", lambda: iter(tree)), pre_all)
     pr.expect("tree_leaf_nodes", pr.run("tree_leaf_nodes", tree.leaf_nodes), leaves_all)
@@ -770,7 +827,7 @@ def check_apply(ctx, pr, rt, apply_fn, s, name, all_patterns):
         l = cb("L") if use[2] else None
         pr.where = "%s at node %d, callbacks before=%r after=%r leaf=%r" % (name, s, bool(b), bool(a), bool(l))
         try:
-            ctx.call("C15.exception:" + name, apply_fn, b, a, l)
+            pr.lib("C15.exception:" + name, apply_fn, b, a, l)
         except _Runaway:
             ctx.fail("apply_terminates", "C15.apply:runaway", pr.detail(name, ["%s%d" % e for e in events[:20]] + ["..."],
                                                                         "%d callbacks" % len(want_full)))
@@ -1016,6 +1073,7 @@ def check_history_exh(ctx, item):
 # ---------------------------------------------------------------------------
 
 LARGE_FAMILIES = ["caterpillar", "balanced", "star", "random", "bushy"]
+DEEP_FAMILIES = ["chain", "broom"]   # depth far beyond the default recursion limit through unifurcations
 
 
 def large_spec(family, n_nodes, seed):
@@ -1029,6 +1087,24 @@ def large_spec(family, n_nodes, seed):
         return mk_leaf(counter[0] - 1)
     if family == "star":
         return shapes.internal([leaf() for _ in range(n_nodes - 1)])
+    if family == "chain":                # n_nodes - 1 unifurcations above a single leaf
+        cur = leaf()
+        for _ in range(n_nodes - 1):
+            cur = shapes.internal([cur])
+        return cur
+    if family == "broom":                # (leaf, chain of unifurcations ending in a cherry, ladder) below the seed:
+        n_chain = (n_nodes - 2) // 2     # the two deep parts hang below START nodes, not only below the seed
+        n_ladder = n_nodes - 2 - n_chain
+        if n_ladder % 2 == 0:
+            n_ladder -= 1
+            n_chain += 1
+        chain = shapes.internal([leaf(), leaf()])
+        for _ in range(n_chain - 3):
+            chain = shapes.internal([chain])
+        ladder = leaf()
+        for j in range((n_ladder - 1) // 2):
+            ladder = shapes.internal([ladder, leaf()] if j % 2 else [leaf(), ladder])
+        return shapes.internal([leaf(), chain, ladder])
     if family in ("caterpillar", "balanced"):
         nl = (n_nodes + 1) // 2          # 2*nl - 1 nodes, one unifurcation more when n_nodes is even
         if family == "caterpillar":
@@ -1092,6 +1168,16 @@ def large_items(tier):
             # quick: every family right at the 1024 boundary, one family (rotating) at the other sizes
             if thorough or nn in (1025, 1026, 1027) or j % len(LARGE_FAMILIES) == f:
                 items.append({"family": fam, "nodes": nn, "seed": 7 * nn + 1})
+    # depth clearly beyond the default recursion limit: ladders of 1100+ tips (the 5000-node caterpillar above has
+    # 2500), unifurcation chains, and both below non-seed start nodes (broom)
+    items.append({"family": "caterpillar", "nodes": 2199, "seed": 1})       # 1100 tips
+    items.append({"family": "chain", "nodes": 1500, "seed": 1})
+    items.append({"family": "chain", "nodes": 3000, "seed": 1})
+    items.append({"family": "broom", "nodes": 5000, "seed": 1})
+    if thorough:
+        items.append({"family": "caterpillar", "nodes": 9999, "seed": 1})   # 5000 tips
+        items.append({"family": "chain", "nodes": 10000, "seed": 1})
+        items.append({"family": "broom", "nodes": 12000, "seed": 1})
     items.sort(key=lambda it: -it["nodes"])  # heavy items spread over the shards
     return items
 
@@ -1123,10 +1209,13 @@ def check_large(ctx, item):
     starts += [n // 2, n - 1]
     starts = sorted(set(starts))
     rt, pr = check_built(ctx, tree, rt, starts, [LARGE_FILTER], precalc=bool(item["nodes"] % 2), all_apply=False,
-                         ages=True, inorder=depth <= 100, label=label)
+                         ages=True, inorder=True, label=label, user_limit=True)
     ctx.nontrivial(["large", item["family"], item["nodes"], item["seed"]])
     ctx.cls("large:%s" % item["family"])
-    ctx.cls("large:depth%s" % ("<=100" if depth <= 100 else ">100 (in-order skipped)"))
+    ctx.cls("large:depth%s" % ("<=100" if depth <= 100 else "101-999" if depth < 1000 else ">=1000 (beyond the default recursion limit)"))
+    for st_ in starts[1:]:
+        if pr.height_below(st_) >= 1000:
+            ctx.cls("large:non_seed_start_above_subtree_of_height>=1000")
     ctx.cls("large:subtree_below_2nd_start>1025" if len(starts) > 1 and size[starts[1]] > 1026 else "large:subtree_below_2nd_start<=1025")
     ctx.sample("large", {"tree": pr.newick, "item": item, "depth": depth, "starts": starts})
 
